@@ -42,6 +42,8 @@ class CallMixin:
             imps = self._mod_imports(mod)
             if name in imps:
                 return self.resolve_import(imps[name], p)
+        if name == "logger":
+            return VOpaque("logger")
         if name in self.builtin_names:
             return VFunc("builtin", name, name)
         if name in ("ValueError", "TypeError", "KeyError", "IndexError", "RuntimeError", "AttributeError",
@@ -58,7 +60,7 @@ class CallMixin:
                      "sorted", "next", "iter", "print", "type", "abs", "super", "callable", "object", "setattr", "float",
                      # spec-only
                      "old", "forall", "exists", "implies", "fresh", "allocated", "at_loop", "iff", "typeis", "seq_eq",
-                     "count", "distinct_seq", "ite", "subseteq", "same_elems", "box", "nonnull", "unchanged", "Seq", "some"}
+                     "count", "distinct_seq", "ite", "subseteq", "same_elems", "box", "nonnull", "unchanged", "Seq", "some", "IntSeq"}
 
     def _mod_consts(self, mod):
         c = self._consts_cache.get(mod)
@@ -336,6 +338,8 @@ class CallMixin:
         if err is not None:
             return [(p, err)]
         p.frames.append(fr)
+        if fn is not None and getattr(fn, "ghost_init", None):
+            self.run_ghost(p, fn.ghost_init)
         body = extract.strip_docstring(fnode.body) if not isinstance(fnode, ast.Lambda) else None
         out = []
         if body is None:
@@ -343,7 +347,10 @@ class CallMixin:
         else:
             res = self.ex(body, p)
         for q, oc in res:
-            q.frames.pop()
+            fr_done = q.frames.pop()
+            gh = {k: v for k, v in fr_done.locals.items() if k.startswith("g_")}
+            if gh:
+                q.ghost["$exit_ghost"] = gh
             if oc is NEXT:
                 out.append((q, VNone()))
             elif oc[0] == "return":
